@@ -211,7 +211,13 @@ class MPEGAdaption(object):
         else:
             _extension_buffer = bytes()
         _data_len = (
-            len(self.pcr) + len(self.opcr) + len(self.private_data) + len(_extension_buffer) + len(splice_buf) + 1
+            len(self.pcr)
+            + len(self.opcr)
+            + len(_transport_len_b)
+            + len(self.private_data)
+            + len(_extension_buffer)
+            + len(splice_buf)
+            + 1
         )
         if self.length > _data_len:
             _suffing_len = self.length - _data_len
